@@ -278,13 +278,14 @@ class Check:
         if self.violations:
             rdir = os.path.join(VERIF, "evidence", "replay")
             os.makedirs(rdir, exist_ok=True)
-            for i, (desc, replay) in enumerate(self.violations[:20]):
+            maxr = int(os.environ.get('VERIF_MAXREPLAY', '20'))
+            for i, (desc, replay) in enumerate(self.violations[:maxr]):
                 path = os.path.join(rdir, "%s_%s_%d.json" % (self.pid, self.tier, i))
                 json.dump({"property": self.pid, "description": desc, "case": replay}, open(path, "w"), indent=1)
                 print("VIOLATION property=%s replay=%s" % (self.pid, path))
                 print("  " + desc[:600])
-            if len(self.violations) > 20:
-                print("  ... and %d more violations" % (len(self.violations) - 20))
+            if len(self.violations) > maxr:
+                print("  ... and %d more violations" % (len(self.violations) - maxr))
             code = 1
         json.dump(ev, open(os.path.join(VERIF, "evidence", self.pid + ".json"), "w"), indent=1)
         print("%s %s: %s  (states=%d, impl traces=%d, evaluations=%d, nontrivial=%d, %.0fs)" % (
